@@ -420,7 +420,12 @@ Qed.
 (* ".." is an ordinary name: without a child of that name the lookup fails *)
 Lemma dotdot_is_a_name : forall fuel ml ch,
   lookup_child ch dd = None -> get_node (S fuel) ml (NDir ch) dd 0 = LNotExist.
-Proof. intros fuel ml ch H. simpl. rewrite H. reflexivity. Qed.
+Proof.
+  intros fuel ml ch H.
+  change (get_node (S fuel) ml (NDir ch) dd 0)
+    with (walk ml (get_node fuel ml (NDir ch)) (NDir ch) [] [dd] 0).
+  unfold walk. change (str_eqb dd []) with false. cbv iota. rewrite H. reflexivity.
+Qed.
 
 (* ======================================================================== *)
 (* 8. key files                                                              *)
@@ -467,13 +472,15 @@ Lemma key_path_comps : forall e,
 Proof.
   intro e. rewrite key_path_eq, cc_clean, cc_join2 by discriminate.
   change (is_abs keys_dir) with false. rewrite keys_dir_run.
+  remember (0, [la "keys"; la "apk"; la "etc"]) as st0 eqn:Est0.
   destruct (base_shape e) as [E|NS].
-  - rewrite E. left. reflexivity.
-  - rewrite split_single by assumption. unfold crun. simpl fold_left.
-    destruct (cstep_cases false (0, [la "keys"; la "apk"; la "etc"]) (base e) NS) as [[_ E]|[[D _]|[P E]]].
-    + rewrite E. left. reflexivity.
-    + apply is_dd_eq in D. rewrite D. right. left. reflexivity.
-    + rewrite E. right. right. split; [assumption | reflexivity].
+  - rewrite E. left. subst st0. reflexivity.
+  - rewrite split_single by assumption.
+    change (crun false st0 [base e]) with (cstep false st0 (base e)).
+    destruct (cstep_cases false st0 (base e) NS) as [[_ E]|[[D _]|[P E]]].
+    + rewrite E. left. subst st0. reflexivity.
+    + apply is_dd_eq in D. rewrite D. right. left. subst st0. reflexivity.
+    + rewrite E. right. right. split; [assumption | subst st0; reflexivity].
 Qed.
 
 Lemma key_path_under : forall e, under (la "etc/apk") (key_path e).
@@ -491,8 +498,226 @@ Lemma keyname_ok_no_slash : forall k, keyname_ok k = true -> no_slash k.
 Proof.
   intros k H I. unfold keyname_ok in H. apply negb_true_iff in H.
   assert (contains k (la keyname_forbidden) = true) as C; [|congruence].
-  clear H. induction k as [|c k IH]; [contradiction|].
+  clear H. change (la keyname_forbidden) with [sl].
+  induction k as [|c k IH]; [contradiction|].
   destruct I as [E|I].
   - subst. reflexivity.
-  - simpl. rewrite (IH I). apply orb_true_r.
+  - change (contains (c :: k) [sl]) with (has_prefix (c :: k) [sl] || contains k [sl]).
+    rewrite (IH I). apply orb_true_r.
+Qed.
+
+(* ======================================================================== *)
+(* 9. ETag -> file name                                                      *)
+(* ======================================================================== *)
+
+Definition okc (alpha : str) (pad c : ascii) : Prop := In c alpha \/ c = pad.
+
+Lemma b32c_ok : forall alpha pad v i, okc alpha pad (b32c alpha pad v i).
+Proof.
+  intros. unfold okc, b32c.
+  destruct (nth_in_or_default (N.to_nat ((v / 2 ^ (35 - 5 * i)) mod 32)) alpha pad); auto.
+Qed.
+
+Lemma b32chunk_ok : forall alpha pad v n, Forall (okc alpha pad) (b32chunk alpha pad v n).
+Proof.
+  intros. unfold b32chunk. apply Forall_app. split.
+  - apply Forall_forall. intros x I. apply in_map_iff in I. destruct I as [i [E _]]. subst. apply b32c_ok.
+  - apply Forall_forall. intros x I. apply repeat_spec in I. subst. right. reflexivity.
+Qed.
+
+Lemma b32_ok : forall alpha pad l, Forall (okc alpha pad) (b32 alpha pad l).
+Proof.
+  intros alpha pad l.
+  assert (forall n l, List.length l <= n -> Forall (okc alpha pad) (b32 alpha pad l)) as H.
+  { induction n as [|n IH]; intros l0 L.
+    - destruct l0; [constructor | simpl in L; lia].
+    - destruct l0 as [|a [|b [|c [|d [|e rest]]]]]; cbn [b32]; try apply b32chunk_ok; [constructor|].
+      apply Forall_app. split; [apply b32chunk_ok|]. apply IH. simpl in L. lia. }
+  apply (H (List.length l)). lia.
+Qed.
+
+Definition etag_char (c : ascii) : Prop := okc (la etag_alphabet) pad_char c.
+
+Lemma etag_from_response_chars : forall hdr e,
+  etag_from_response hdr = Some e -> Forall etag_char e /\ e <> [].
+Proof.
+  intros hdr e H. unfold etag_from_response in H.
+  destruct hdr as [[|v l]|]; try discriminate. destruct v as [|c v]; [discriminate|].
+  destruct (etag_encode (trim (la etag_trim_cutset) (c :: v))) as [|x y] eqn:E; [discriminate|].
+  inversion H; subst. split; [|discriminate].
+  rewrite <- E. unfold etag_encode. apply b32_ok.
+Qed.
+
+(* no character the encoding can produce is a separator or a dot *)
+Definition safe_char (c : ascii) : bool := negb (is_sl c) && negb (Ascii.eqb c dot).
+
+Lemma etag_alphabet_safe : forallb safe_char (la etag_alphabet ++ [pad_char]) = true.
+Proof. vm_compute. reflexivity. Qed.
+
+Lemma etag_char_safe : forall c, etag_char c -> safe_char c = true.
+Proof.
+  intros c H. pose proof etag_alphabet_safe as F. rewrite forallb_forall in F. apply F.
+  apply in_or_app. destruct H as [H|H]; [left; assumption | right; left; symmetry; assumption].
+Qed.
+
+Lemma etag_name_proper : forall e x, Forall etag_char e -> e <> [] -> no_slash x -> proper (e ++ x).
+Proof.
+  intros e x F NE NS. destruct e as [|c e]; [contradiction|]. inversion F as [|? ? Hc He]; subst.
+  pose proof (etag_char_safe c Hc) as Sc. unfold safe_char in Sc. apply andb_true_iff in Sc.
+  destruct Sc as [S1 S2]. apply negb_true_iff in S1. apply negb_true_iff in S2.
+  repeat split.
+  - intro I. apply in_app_or in I. destruct I as [I|I]; [|contradiction].
+    rewrite Forall_forall in F. specialize (F sl I). apply etag_char_safe in F.
+    vm_compute in F. discriminate.
+  - unfold is_skip. simpl. rewrite S2. reflexivity.
+  - unfold is_dd, dd. simpl. rewrite S2. reflexivity.
+Qed.
+
+Lemma proper_ups_downs : forall n, proper n -> ups n = 0 /\ downs n = [n].
+Proof.
+  intros n P. unfold ups, downs. rewrite split_single by (apply proper_no_slash; assumption).
+  change (crun false (0, []) [n]) with (cstep false (0, []) n). rewrite cstep_proper by assumption.
+  split; reflexivity.
+Qed.
+
+Lemma etag_ext_no_slash : forall f, no_slash (snd (etag_dir_ext f)).
+Proof.
+  intro f. unfold etag_dir_ext. destruct (has_suffix f (la etag_index_suffix)); simpl snd;
+    apply no_slashb_iff; vm_compute; reflexivity.
+Qed.
+
+Lemma etag_file_in_dir : forall hdr e cwd f p,
+  etag_from_response hdr = Some e ->
+  is_abs (fst (etag_dir_ext f)) = true ->
+  cache_file_from_etag cwd f e = Some p ->
+  proper (e ++ snd (etag_dir_ext f)) /\
+  is_abs p = true /\
+  cc p = cc (fst (etag_dir_ext f)) ++ [e ++ snd (etag_dir_ext f)].
+Proof.
+  intros hdr e cwd f p HE HA HC.
+  destruct (etag_from_response_chars hdr e HE) as [F NE].
+  pose proof (etag_name_proper e _ F NE (etag_ext_no_slash f)) as P.
+  split; [assumption|].
+  unfold cache_file_from_etag in HC. destruct (etag_dir_ext f) as [cd x]. simpl fst in *. simpl snd in *.
+  destruct (has_prefix _ cd); [|discriminate]. inversion HC; subst. clear HC.
+  unfold abs. rewrite join_abs_is_abs by assumption.
+  rewrite clean_abs, cc_clean, join_abs_is_abs, cc_join_abs by assumption.
+  destruct (proper_ups_downs _ P) as [U D]. rewrite U, D, Nat.sub_0_r, firstn_all.
+  split; reflexivity.
+Qed.
+
+Lemma key_path_proper : forall e, proper (base e) ->
+  cc (key_path e) = map la key_dir_elems ++ [base e].
+Proof.
+  intros e P. rewrite key_path_eq, cc_clean, cc_join2 by discriminate.
+  change (is_abs keys_dir) with false. rewrite keys_dir_run.
+  rewrite split_single by (apply proper_no_slash; assumption).
+  change (crun false (0, [la "keys"; la "apk"; la "etc"]) [base e])
+    with (cstep false (0, [la "keys"; la "apk"; la "etc"]) (base e)).
+  rewrite cstep_proper by assumption. reflexivity.
+Qed.
+
+(* ======================================================================== *)
+(* 10. URL -> cache path                                                     *)
+(* ======================================================================== *)
+
+Lemma hexdigit_not_sl : forall n, hexdigit n <> sl.
+Proof.
+  intro n. unfold hexdigit.
+  destruct (nth_in_or_default (N.to_nat n) (la "0123456789ABCDEF") "0"%char) as [I|E].
+  - intro H. rewrite H in I. vm_compute in I. repeat (destruct I as [I|I]; [discriminate|]). contradiction.
+  - rewrite E. discriminate.
+Qed.
+
+Lemma qescape_no_slash : forall x, no_slash (qescape x).
+Proof.
+  induction x as [|c x IH]; [intros []|]. simpl.
+  destruct (unreserved c) eqn:U.
+  - intros [H|H]; [|contradiction]. subst. vm_compute in U. discriminate.
+  - destruct (Ascii.eqb c " "%char).
+    + intros [H|H]; [discriminate | contradiction].
+    + intros [H|[H|[H|H]]]; [discriminate | | | contradiction].
+      * eapply hexdigit_not_sl. exact H.
+      * eapply hexdigit_not_sl. exact H.
+Qed.
+
+Definition pct : ascii := "%"%char.
+
+Lemma qescape_has_pct : forall x, In sl x -> In pct (qescape x).
+Proof.
+  induction x as [|c x IH]; [intros []|]. intros [E|I].
+  - subst. left. reflexivity.
+  - specialize (IH I). simpl. destruct (unreserved c); [right; assumption|].
+    destruct (Ascii.eqb c " "%char); [right; assumption|]. right. right. right. assumption.
+Qed.
+
+Lemma pct_not_special : forall e, In pct e -> is_skip e = false /\ is_dd e = false.
+Proof.
+  intros e H. destruct e as [|a [|b [|c e]]].
+  - contradiction.
+  - destruct H as [H|[]]. subst. split; reflexivity.
+  - destruct H as [H|[H|[]]]; subst; split; try reflexivity.
+    + unfold is_skip. simpl. rewrite andb_false_r. reflexivity.
+    + unfold is_dd, dd. simpl. rewrite andb_false_r. reflexivity.
+  - split; [unfold is_skip | unfold is_dd, dd]; simpl; rewrite ?andb_false_r; reflexivity.
+Qed.
+
+Lemma run_shape : forall x st, (x = [sl] \/ no_slash x) ->
+  crun false st (split x) = st \/
+  (is_dd x = true /\ crun false st (split x) = cstep false st dd) \/
+  crun false st (split x) = (fst st, x :: snd st).
+Proof.
+  intros x st [E|NS].
+  - subst. left. reflexivity.
+  - rewrite split_single by assumption. change (crun false st [x]) with (cstep false st x).
+    destruct (cstep_cases false st x NS) as [[_ E]|[[D _]|[_ E]]].
+    + left. assumption.
+    + right. left. split; [assumption|]. apply is_dd_eq in D. subst. reflexivity.
+    + right. right. assumption.
+Qed.
+
+Lemma under_clean_r : forall r p, under r (clean p) <-> under r p.
+Proof. intros. unfold under. rewrite clean_abs, cc_clean. tauto. Qed.
+
+(* c18_cache_path with one extra hypothesis: the arch-directory name
+   base(dir(path)) is not "..".  (It never is: dir returns a cleaned path; that
+   fact about [base] after [render] is the part not proved here.) *)
+Lemma cache_path_under_root_partial : forall root ustr path p,
+  is_abs root = true -> In sl ustr -> is_dd (base (dir path)) = false ->
+  cache_path_from_url root ustr path = Some p ->
+  under root p.
+Proof.
+  intros root ustr path p HA HS HD HC. unfold cache_path_from_url in HC.
+  destruct (has_prefix _ (clean root)); [|discriminate]. inversion HC; subst; clear HC.
+  set (e := qescape ustr). set (d := base (dir path)) in *. set (fn := base path).
+  assert (join [root; e; d; fn] = join [root; e ++ sl :: d ++ sl :: fn]) as EJ.
+  { destruct root as [|c r]; [discriminate|]. unfold join. simpl drop_empty. cbn [join_sl].
+    reflexivity. }
+  rewrite EJ. apply under_clean_r. apply no_climb_under; [assumption|].
+  unfold ups. rewrite !split_app_sl, !crun_app.
+  assert (proper e) as PE.
+  { destruct (pct_not_special e (qescape_has_pct ustr HS)) as [P1 P2].
+    repeat split; [apply qescape_no_slash | assumption | assumption]. }
+  rewrite (split_single e) by (apply proper_no_slash; assumption).
+  change (crun false (0, []) [e]) with (cstep false (0, []) e). rewrite cstep_proper by assumption.
+  simpl fst. simpl snd.
+  assert (exists y ys, crun false (0, [e]) (split d) = (0, y :: ys)) as [y [ys E1]].
+  { destruct (run_shape d (0, [e]) (base_shape (dir path))) as [E|[[D _]|E]].
+    - eauto.
+    - exfalso. subst d. rewrite HD in D. discriminate.
+    - simpl in E. eauto. }
+  rewrite E1.
+  destruct (run_shape fn (0, y :: ys) (base_shape path)) as [E|[[_ E]|E]]; rewrite E; reflexivity.
+Qed.
+
+Lemma cache_path_can_be_root :
+  exists root ustr path e p,
+    cache_path_from_url root ustr path = Some root /\
+    etag_from_response (Some [la "abc"]) = Some e /\
+    cache_file_from_etag (la "/") root e = Some p /\ ~ under root p.
+Proof.
+  exists (la "/t/cache"), (la "https://h/"), (la "/.."). eexists _, _.
+  split; [vm_compute; reflexivity|]. split; [vm_compute; reflexivity|].
+  split; [vm_compute; reflexivity|].
+  intro U. apply underb_iff in U. vm_compute in U. discriminate.
 Qed.
